@@ -62,7 +62,7 @@ def one_run(ck, rng, stats, mode, conf_text, stdin_msg=None, samples=None, varia
     env = {'VFIO_LOG': log, 'VFIO_ROOT': sb.root, 'VERIF_HELPER_OUT': hout}
     if variant == 'dtunknown':
         env['VFIO_DTUNKNOWN'] = '1'          # a file system that does not report file types
-    args = [mode] + (['-'] if stdin_msg is not None else [])
+    args = mode.split() + (['-'] if stdin_msg is not None else [])
     rc, out, err = sb.run(args, conf=conf, env=env, stdin=stdin_msg, preload=iorun.SHIM,
                           stdout_path='/dev/full' if variant == 'devfull' else None)   # stdout that cannot be written
     stats['runs'] += 1
@@ -86,7 +86,7 @@ def one_run(ck, rng, stats, mode, conf_text, stdin_msg=None, samples=None, varia
         bad = 'the sandbox changed: %s' % sorted(diff)[:4]
     elif any(a != b'cond' for a in argvs):
         bad = 'an exec action was run: helper calls %r' % argvs[:4]
-    elif mode == '-n':
+    elif 'n' in mode:          # -n, also combined with -d in any order or spelling
         touched = [c for c in trace if c['call'] in ('opendir', 'openat', 'open', 'fork', 'readdir', 'mkdtemp') or c['call'] in MUTATING]
         if touched or argvs:
             bad = 'syntax check touched something: %s' % [(c['call'], c['args'][:60]) for c in touched[:4]]
@@ -125,6 +125,8 @@ def run(ck):
     for idx, c in enumerate(confs):
         one_run(ck, rng, stats, '-d', c, samples=samples)
         one_run(ck, rng, stats, '-n', c)
+        if idx % 5 == 0 or idx >= n:
+            one_run(ck, rng, stats, rng.choice(['-n -d', '-d -n', '-dn', '-nd', '-n -v', '-vn']), c)
         if idx % 4 == 0 or idx >= n:
             one_run(ck, rng, stats, '-d', c, variant='devfull')
             one_run(ck, rng, stats, '-d', c, variant='dtunknown')
@@ -137,6 +139,7 @@ def run(ck):
         msg = confgen.message_for(rng.choice(confgen.all_envs()), 7)
         one_run(ck, rng, stats, '-d', f, stdin_msg=msg)
         one_run(ck, rng, stats, '-n', f, stdin_msg=msg)
+        one_run(ck, rng, stats, rng.choice(['-n -d', '-dn', '-nd']), f, stdin_msg=msg)
         one_run(ck, rng, stats, '-d', f, stdin_msg=msg, variant='dtunknown')
         one_run(ck, rng, stats, '-d', f, stdin_msg=msg, variant='devfull')
     # configurations whose real run would fail, in both modes
@@ -152,7 +155,7 @@ def run(ck):
         'distinct_nontrivial': stats['nontrivial'],
         'rule': 'random rule trees (confgen: and/or/!/parentheses/unparenthesised chains, nested blocks, actions move/flag/flags/label/add-header/discard/exec, '
                 'pass/break) plus 7 special configurations (missing destination, invalid back-reference, command condition + exec stdin + label, exec stdin body, '
-                'date+isdirectory, attachment block, two maildirs) over a population of 9 messages in new/cur; each with -d and with -n; stdin variants; 7 configurations whose real run '
+                'date+isdirectory, attachment block, two maildirs) over a population of 9 messages in new/cur; each with -d and with -n, a fifth also with -n and -d / -v combined in either order and spelling; stdin variants; 7 configurations whose real run '
                 'would fail (path too long after interpolation / as configured, missing destination, invalid back-reference, exec) in maildir and stdin mode. '
                 'non-trivial = a run that opened at least one message; distinct = distinct runs',
         'samples': samples,
